@@ -520,10 +520,14 @@ func (m *Map) resize(knownTable *mapTable, hint mapResizeHint) {
 		}
 	}
 	// Slow path.
-	if !atomic.CompareAndSwapInt64(&m.resizing, 0, 1) {
+	for !atomic.CompareAndSwapInt64(&m.resizing, 0, 1) {
 		// Someone else started resize. Wait for it to finish.
 		m.waitForResize()
-		return
+		if hint != mapClearHint {
+			return
+		}
+		// A clear request must not be dropped: the resize that was
+		// in progress kept the entries, so try again.
 	}
 	var newTable *mapTable
 	table := (*mapTable)(atomic.LoadPointer(&m.table))
